@@ -666,6 +666,7 @@ pub fn run(tier: Tier) {
         small_scope(&mut ctx, 4, &[(0, 0), (1, 1), (2, 0)], &[1.0, -800.0, 3000.0]);
         small_scope(&mut ctx, 8, &[(0, 1), (1, 0)], &[1.0]);
     }
+    crate::e5::run_part(&mut ctx, "decode");
     ctx.sample(json!({"invariant":"I2","call":"r-th sampler call of an attempt <-> Gram-Schmidt row k = 2(n-1-floor(r/2)) + (r mod 2) of the rows X^brv(i)(g,f), X^brv(i)(G,F)","centre":"<target - sum_{later calls} z r, b~_k> / ||b~_k||^2"}));
     ctx.assume("the literal statement (E<s,u> = 0, E<s,u>^2 = sigma^2 along all directions) is NOT decided directly: it follows from I1-I3 and C09 by the Klein/GPV nearest-plane theorem, which is mathematics and not checked here");
     ctx.assume("dense Gram-Schmidt in f64 (modified Gram-Schmidt); centre tolerance 1e-6 relative, observed ~1e-10");
@@ -678,6 +679,9 @@ pub fn replay(case: &Value) -> Result<Option<String>, String> {
         let n = case.get("variant").and_then(|x| x.as_u64()).ok_or("variant")? as usize;
         let (_, psigma, psigmin, _, _) = fh::parameters(n);
         return Ok(if psigma != sigma(n) || psigmin != sigma_min(n) { Some("parameter table differs from the specification".into()) } else { None });
+    }
+    if kind == "e5" || kind == "e5-setup" {
+        return crate::e5::replay(case);
     }
     if kind == "slot" {
         return Err("re-run ./vf check C10 (the slot history is enumerated deterministically)".into());
